@@ -70,23 +70,48 @@ Proof.
     + cbn [length] in Hn. lia.
 Qed.
 
-(* skipping the rest of the rof line *)
+(* skipping the rest of the rof line, its newline included *)
 Lemma rof_skip_line skip : forall n f rest,
   Forall (fun t => nonterm t /\ t_typ t <> tokNewline) skip ->
-  f_rd f = rd_at (skip ++ mkT tokNewline [] :: rest) -> (length skip < n)%nat ->
-  exists f1, rof_skip n f = (f1, true) /\ f_rd f1 = rd_at (mkT tokNewline [] :: rest) /\
+  f_rd f = rd_at (skip ++ mkT tokNewline [] :: rest) -> rest <> [] -> (length skip < n)%nat ->
+  exists f1, rof_skip n f = (f1, true) /\ f_rd f1 = rd_at rest /\
              f_out f1 = f_out f /\ f_content f1 = f_content f /\ f_count f1 = f_count f /\
-             f_count_label f1 = f_count_label f /\ f_line_labels f1 = f_line_labels f.
+             f_count_label f1 = f_count_label f /\ f_line_labels f1 = f_line_labels f /\ f_labels_at f1 = f_labels_at f.
 Proof.
-  induction skip as [|t sk IH]; intros n f rest Hs Hr Hn.
+  induction skip as [|t sk IH]; intros n f rest Hs Hr Hne Hn.
   - destruct n as [|n]; [lia|]. cbn [rof_skip]. unfold f_nt. rewrite Hr. cbn [app rd_at r_next t_typ].
-    exists f. auto 10.
+    exists (f_next f). split; [reflexivity|]. split; [|cbn; auto 10].
+    unfold f_next. cbn [f_rd f_set_rd]. rewrite Hr. cbn [app]. destruct rest as [|t2 r']; [congruence|].
+    apply rnext_at. reflexivity.
   - destruct n as [|n]; [cbn in Hn; lia|]. inversion Hs as [|x y [Hx1 Hx2] Hy]; subst.
     cbn [rof_skip]. unfold f_nt at 1. rewrite Hr. cbn [app rd_at r_next].
-    assert (Hm : forall (A : Type) (a b c : A), match t_typ t with tokNewline => a | tokEOF | tokError => b | _ => c end = c).
-    { intros A a b c. unfold nonterm, is_terminal in Hx1. destruct (t_typ t); try reflexivity; try discriminate Hx1. congruence. }
+    assert (Hm : forall (A : Type) (a b c d : A), match t_typ t with tokNewline => a | tokEOF => b | tokError => c | _ => d end = d).
+    { intros A a b c d. unfold nonterm, is_terminal in Hx1. destruct (t_typ t); try reflexivity; try discriminate Hx1. congruence. }
     rewrite Hm.
-    destruct (IH n (f_next f) rest Hy) as [f1 [E1 [E2 [E3 [E4 [E5 [E6 E7]]]]]]].
+    destruct (IH n (f_next f) rest Hy) as [f1 [E1 [E2 [E3 [E4 [E5 [E6 [E7 E8]]]]]]]].
+    + unfold f_next. cbn [f_rd f_set_rd]. rewrite Hr.
+      destruct sk as [|t2 sk']; cbn [app]; apply rnext_at; exact Hx1.
+    + exact Hne.
+    + cbn [length] in Hn. lia.
+    + exists f1. rewrite E1. split; [reflexivity|]. split; [exact E2|]. cbn in *. auto 10.
+Qed.
+(* ... or up to the end of the input when the rof line is the last one and lacks a newline *)
+Lemma rof_skip_eof skip : forall n f e junk,
+  Forall (fun t => nonterm t /\ t_typ t <> tokNewline) skip -> t_typ e = tokEOF ->
+  f_rd f = rd_at (skip ++ e :: junk) -> (length skip < n)%nat ->
+  exists f1, rof_skip n f = (f1, true) /\ f_rd f1 = rd_at (e :: junk) /\
+             f_out f1 = f_out f /\ f_content f1 = f_content f /\ f_count f1 = f_count f /\
+             f_count_label f1 = f_count_label f /\ f_line_labels f1 = f_line_labels f /\ f_labels_at f1 = f_labels_at f.
+Proof.
+  induction skip as [|t sk IH]; intros n f e junk Hs He Hr Hn.
+  - destruct n as [|n]; [lia|]. cbn [rof_skip]. unfold f_nt. rewrite Hr. cbn [app rd_at r_next]. rewrite He.
+    exists f. split; [reflexivity|]. split; [exact Hr|auto 10].
+  - destruct n as [|n]; [cbn in Hn; lia|]. inversion Hs as [|x y [Hx1 Hx2] Hy]; subst.
+    cbn [rof_skip]. unfold f_nt at 1. rewrite Hr. cbn [app rd_at r_next].
+    assert (Hm : forall (A : Type) (a b c d : A), match t_typ t with tokNewline => a | tokEOF => b | tokError => c | _ => d end = d).
+    { intros A a b c d. unfold nonterm, is_terminal in Hx1. destruct (t_typ t); try reflexivity; try discriminate Hx1. congruence. }
+    rewrite Hm.
+    destruct (IH n (f_next f) e junk Hy He) as [f1 [E1 [E2 [E3 [E4 [E5 [E6 [E7 E8]]]]]]]].
     + unfold f_next. cbn [f_rd f_set_rd]. rewrite Hr.
       destruct sk as [|t2 sk']; cbn [app]; apply rnext_at; exact Hx1.
     + cbn [length] in Hn. lia.
@@ -97,9 +122,8 @@ Lemma step_rof symbols f :
   for_step symbols FRof f =
   match rof_skip (S (S (length (r_toks (f_rd f))))) f with
   | (f1, false) => Some (f1, None)
-  | (f1, true) =>
-    let f2 := f_next f1 in
-    let body := repeat_body (Z.to_nat (f_count f2)) 1 (f_count_label f2) (f_line_labels f2) (f_content f2) in
+  | (f2, true) =>
+    let body := emit_body (Z.to_nat (f_count f2)) (f_labels_at f2) (f_count_label f2) (f_line_labels f2) (f_content f2) in
     Some (f_send f2 body, Some FEmitConsumeStream)
   end.
 Proof. reflexivity. Qed.
@@ -107,38 +131,83 @@ Lemma step_stream symbols f :
   for_step symbols FEmitConsumeStream f = Some (stream_loop (S (S (length (r_toks (f_rd f))))) f, None).
 Proof. reflexivity. Qed.
 
+(* ---------- what forRof sends for the block ---------- *)
+Lemma emit_first_none cl ll labs body : forall j, emit_first j None labs cl ll body = map (subst_body cl ll 1) body.
+Proof. induction body as [|t r IH]; intros j; cbn [emit_first map app]; [reflexivity|]. rewrite IH. reflexivity. Qed.
+Lemma emit_first_past cl ll labs body : forall j a, (a < j)%nat ->
+  emit_first j (Some a) labs cl ll body = map (subst_body cl ll 1) body.
+Proof.
+  induction body as [|t r IH]; intros j a H; cbn [emit_first map]; [reflexivity|].
+  destruct (Nat.eqb_spec a j); [lia|]. cbn [app]. rewrite IH by lia. reflexivity.
+Qed.
+(* the labels stand in front of the token at index a of the first iteration *)
+Lemma emit_first_at cl ll labs body : forall j a, (j <= a)%nat -> (a - j < length body)%nat ->
+  emit_first j (Some a) labs cl ll body =
+  map (subst_body cl ll 1) (firstn (a - j) body) ++ labs ++ map (subst_body cl ll 1) (skipn (a - j) body).
+Proof.
+  induction body as [|t r IH]; intros j a Hj Hl; [cbn in Hl; lia|].
+  cbn [emit_first]. destruct (Nat.eqb_spec a j) as [->|Hne].
+  - replace (j - j)%nat with O by lia. cbn [firstn skipn map app]. rewrite emit_first_past by lia. reflexivity.
+  - destruct (a - j)%nat as [|k] eqn:Ek; [lia|]. cbn [firstn skipn map app]. cbn [length] in Hl.
+    rewrite (IH (S j) a) by lia. replace (a - S j)%nat with k by lia. reflexivity.
+Qed.
+(* count >= 1: the first iteration carries the labels, iterations 2 .. count are plain *)
+Lemma emit_body_unroll n at_ cl ll body :
+  emit_body (S n) at_ cl ll body =
+  emit_first 0 at_ (map (mkT tokText) ll) cl ll body
+  ++ flat_map (fun j => map (subst_body cl ll j) body) (nseq 2 n).
+Proof. unfold emit_body. rewrite repeat_body_unroll. reflexivity. Qed.
+(* without block labels the block is the body written out count times *)
+Lemma emit_body_plain n cl body :
+  emit_body n None cl [] body = flat_map (fun j => map (subst_body cl [] j) body) (nseq 1 n).
+Proof.
+  destruct n as [|n]; [reflexivity|]. rewrite emit_body_unroll, emit_first_none, nseq_S. reflexivity.
+Qed.
+
 (* from the ROF line on: the unrolled body is sent, then the rest of the stream is copied *)
 Theorem rof_phase symbols n f f' skip rest e junk :
   Forall (fun t => nonterm t /\ t_typ t <> tokNewline) skip -> Forall nonterm rest -> t_typ e = tokEOF ->
   f_rd f = rd_at (skip ++ mkT tokNewline [] :: rest ++ e :: junk) ->
   for_run symbols n FRof f = Some f' ->
   f_out f' = f_out f
-             ++ flat_map (fun j => map (subst_body (f_count_label f) (f_line_labels f) j) (f_content f))
-                         (nseq 1 (Z.to_nat (f_count f)))
+             ++ emit_body (Z.to_nat (f_count f)) (f_labels_at f) (f_count_label f) (f_line_labels f) (f_content f)
              ++ rest.
 Proof.
   intros Hs Hrest He Hr H.
   destruct n as [|n]; [discriminate|]. cbn [for_run] in H. rewrite step_rof in H.
   assert (Hl : (length skip < S (S (length (r_toks (f_rd f)))))%nat).
   { rewrite Hr. destruct skip as [|t sk]; cbn [app rd_at r_toks length]; [lia|]. rewrite app_length. cbn [length]. lia. }
-  destruct (rof_skip_line skip _ f (rest ++ e :: junk) Hs Hr Hl) as [f1 [E1 [E2 [E3 [E4 [E5 [E6 E7]]]]]]].
+  assert (Hne : rest ++ e :: junk <> []) by (destruct rest; discriminate).
+  destruct (rof_skip_line skip _ f (rest ++ e :: junk) Hs Hr Hne Hl) as [f2 [E1 [R2 [E3 [E4 [E5 [E6 [E7 E8]]]]]]]].
   rewrite E1 in H. cbv zeta in H. destruct n as [|n]; [discriminate|]. cbn [for_run] in H. rewrite step_stream in H.
   match type of H with Some ?a = Some _ => assert (Ef : a = f') by congruence end. rewrite <- Ef. clear H Ef.
-  set (f2 := f_next f1).
-  assert (R2 : f_rd f2 = rd_at (rest ++ e :: junk)).
-  { unfold f2, f_next. cbn [f_rd f_set_rd]. rewrite E2.
-    destruct rest as [|t2 r']; cbn [app]; apply rnext_at; reflexivity. }
-  set (body := repeat_body _ _ _ _ _).
+  set (body := emit_body _ _ _ _ _).
   rewrite (stream_copy rest _ (f_send f2 body) e junk Hrest He).
-  - cbn [f_out f_send]. unfold f2, f_next. cbn [f_out f_set_rd]. rewrite E3. unfold body.
-    rewrite repeat_body_unroll.
-    replace (f_content f2) with (f_content f) by (unfold f2; cbn; congruence).
-    replace (f_count f2) with (f_count f) by (unfold f2; cbn; congruence).
-    replace (f_count_label f2) with (f_count_label f) by (unfold f2; cbn; congruence).
-    replace (f_line_labels f2) with (f_line_labels f) by (unfold f2; cbn; congruence).
+  - cbn [f_out f_send]. rewrite E3. unfold body. rewrite E4, E5, E6, E7, E8.
     rewrite <- app_assoc. reflexivity.
   - cbn [f_rd f_send]. exact R2.
   - cbn [f_rd f_send]. rewrite R2. destruct rest as [|t2 r']; cbn [app rd_at r_toks length]; [lia|]. rewrite app_length. cbn [length]. lia.
+Qed.
+(* the same when the rof line is the last line of the input and has no newline: the block is still closed *)
+Theorem rof_phase_eof symbols n f f' skip e junk :
+  Forall (fun t => nonterm t /\ t_typ t <> tokNewline) skip -> t_typ e = tokEOF ->
+  f_rd f = rd_at (skip ++ e :: junk) ->
+  for_run symbols n FRof f = Some f' ->
+  f_out f' = f_out f
+             ++ emit_body (Z.to_nat (f_count f)) (f_labels_at f) (f_count_label f) (f_line_labels f) (f_content f).
+Proof.
+  intros Hs He Hr H.
+  destruct n as [|n]; [discriminate|]. cbn [for_run] in H. rewrite step_rof in H.
+  assert (Hl : (length skip < S (S (length (r_toks (f_rd f)))))%nat).
+  { rewrite Hr. destruct skip as [|t sk]; cbn [app rd_at r_toks length]; [lia|]. rewrite app_length. cbn [length]. lia. }
+  destruct (rof_skip_eof skip _ f e junk Hs He Hr Hl) as [f2 [E1 [R2 [E3 [E4 [E5 [E6 [E7 E8]]]]]]]].
+  rewrite E1 in H. cbv zeta in H. destruct n as [|n]; [discriminate|]. cbn [for_run] in H. rewrite step_stream in H.
+  match type of H with Some ?a = Some _ => assert (Ef : a = f') by congruence end. rewrite <- Ef. clear H Ef.
+  set (body := emit_body _ _ _ _ _).
+  rewrite (stream_copy [] _ (f_send f2 body) e junk ltac:(constructor) He).
+  - cbn [f_out f_send]. rewrite E3, app_nil_r. unfold body. rewrite E4, E5, E6, E7, E8. reflexivity.
+  - cbn [f_rd f_send app]. exact R2.
+  - cbn [length]. lia.
 Qed.
 
 (* ---------- the FOR line: counter, block labels, count ---------- *)
@@ -146,19 +215,45 @@ Lemma step_for symbols f v :
   expand_and_evaluate (f_expr f) symbols = Some (EOk v) ->
   exists f1, for_step symbols FFor f = Some (f1, Some FInnerLine) /\
     f_count f1 = v /\ f_count_label f1 = last (f_labels f) [] /\ f_line_labels f1 = init_list (f_labels f) /\
-    f_to_write f1 = Some (init_list (f_labels f)) /\
+    f_labels_at f1 = None /\
     f_content f1 = [] /\ f_out f1 = f_out f /\ f_rd f1 = f_rd f.
 Proof. intros H. cbn [for_step]. rewrite H. eexists. split; [reflexivity|]. cbn. auto 10. Qed.
 
-(* the renamed block labels are sent once, just before the first instruction of the body *)
-Lemma step_block_labels symbols f ls :
-  t_typ (f_nt f) = tokText -> tok_is_pseudo (f_nt f) = false -> tok_is_op (f_nt f) = true -> f_to_write f = Some ls ->
+(* the place of the block labels is fixed by the first line of the body itself (not of a nested block) that
+   is an instruction: nothing is sent then, the position in the collected body is remembered *)
+Lemma step_block_labels symbols f :
+  t_typ (f_nt f) = tokText -> tok_is_pseudo (f_nt f) = false -> tok_is_op (f_nt f) = true ->
+  f_depth f = O -> f_labels_at f = None ->
   exists f1, for_step symbols FInnerLabels f = Some (f1, Some FInnerEmitLabels) /\
-    f_out f1 = f_out f ++ map (mkT tokText) ls /\ f_to_write f1 = None /\ f_rd f1 = f_rd f /\ f_content f1 = f_content f.
+    f_labels_at f1 = Some (length (f_content f)) /\
+    f_out f1 = f_out f /\ f_rd f1 = f_rd f /\ f_content f1 = f_content f /\ f_labels f1 = f_labels f.
 Proof.
-  intros H1 H2 H3 H4. cbn [for_step]. rewrite H1, H2, H3, H4. eexists. split; [reflexivity|]. cbn. auto.
+  intros H1 H2 H3 H4 H5. cbn [for_step]. rewrite H1, H2, H3. unfold f_mark. rewrite H4, H5.
+  eexists. split; [reflexivity|]. cbn. auto 10.
 Qed.
+(* ... or the header of a nested block, whose labels they then become *)
+Lemma step_block_labels_nested symbols f :
+  t_typ (f_nt f) = tokText -> lower_is (t_val (f_nt f)) "for" = true ->
+  f_depth f = O -> f_labels_at f = None ->
+  exists f1, for_step symbols FInnerLabels f = Some (f1, Some FInnerEmitLabels) /\
+    f_labels_at f1 = Some (length (f_content f)) /\ f_depth f1 = 1%nat /\
+    f_out f1 = f_out f /\ f_rd f1 = f_rd f /\ f_content f1 = f_content f /\ f_labels f1 = f_labels f.
+Proof.
+  intros H1 H2 H4 H5. cbn [for_step]. rewrite H1.
+  assert (Hp : tok_is_pseudo (f_nt f) = true).
+  { unfold tok_is_pseudo, is_pseudo_text. unfold lower_is in H2. rewrite H2. rewrite !orb_true_r. reflexivity. }
+  rewrite Hp, H2. unfold f_mark. rewrite H4, H5. eexists. split; [reflexivity|]. cbn. auto 10.
+Qed.
+(* once fixed, or inside a nested block, the place does not move *)
 Lemma step_block_labels_done symbols f :
-  t_typ (f_nt f) = tokText -> tok_is_pseudo (f_nt f) = false -> tok_is_op (f_nt f) = true -> f_to_write f = None ->
+  t_typ (f_nt f) = tokText -> tok_is_pseudo (f_nt f) = false -> tok_is_op (f_nt f) = true ->
+  (f_depth f <> O \/ f_labels_at f <> None) ->
   for_step symbols FInnerLabels f = Some (f, Some FInnerEmitLabels).
-Proof. intros H1 H2 H3 H4. cbn [for_step]. rewrite H1, H2, H3, H4. reflexivity. Qed.
+Proof.
+  intros H1 H2 H3 H4. cbn [for_step]. rewrite H1, H2, H3. unfold f_mark.
+  destruct (f_depth f); [|reflexivity]. destruct (f_labels_at f); [reflexivity|]. destruct H4; congruence.
+Qed.
+(* a colon after a label of a body line is dropped *)
+Lemma step_inner_colon symbols f :
+  t_typ (f_nt f) = tokColon -> for_step symbols FInnerLabels f = Some (f_next f, Some FInnerLabels).
+Proof. intros H. cbn [for_step]. rewrite H. reflexivity. Qed.
